@@ -1,39 +1,110 @@
-(* C01, instantiated: the concrete integer-core machine of Model/SemCore.v satisfies the
-   hypotheses of [nf_equiv_renamed] (Proofs/Sem.v), for EVERY parse / emit context. *)
+(* C01, instantiated: the concrete machine of Model/SemCore.v (integer core with one linear memory) satisfies
+   the hypotheses of [nf_equiv_renamed_on] (Proofs/Sem.v), for EVERY parse / emit context and every body whose
+   load / store immediates survive the round trip ([memarg_ok]: 32-bit offset, alignment exponent < 32);
+   for a larger offset the renaming lemma is refuted ([core_sem_renamed_big_offset_refuted]). *)
 From Coq Require Import List NArith ZArith Bool Lia. Import ListNotations.
 From WV Require Import Gen.Ops Model.Common Model.IR Model.ParseFn Model.ParseSpec Model.EmitFn
   Model.BodySpec Model.Sem Model.SemCore.
 From WV Require Import Proofs.ParseFn Proofs.Sem Proofs.Fixpoint Proofs.ModFix10.
 
 (* ================================================================== 1. return / unreachable never fall through *)
-Theorem core_never_falls : forall l g o s,
-  marks_unreachable o = true -> exists h s', core_sem l g (WOp o) s = Halt h s'.
+Theorem core_never_falls : forall l g m o s,
+  marks_unreachable o = true -> exists h s', core_sem l g m (WOp o) s = Halt h s'.
 Proof.
-  intros l g o s H. destruct o; try discriminate H.
+  intros l g m o s H. destruct o; try discriminate H.
   - exists Return, s. reflexivity.
   - exists Trap, s. reflexivity.
 Qed.
 
-(* outside the core everything traps, leaving the state alone *)
-Lemma noncore_traps : forall l g o s, is_core o = false -> core_sem l g (WOp o) s = Halt Trap s.
-Proof. intros l g o s H. destruct o; try discriminate H; reflexivity. Qed.
+(* outside the core (by constructor) everything traps, leaving the state alone *)
+Lemma noncore_traps : forall l g m o s, is_core_shape o = false -> core_sem l g m (WOp o) s = Halt Trap s.
+Proof. intros l g m o s H. destruct o; try discriminate H; reflexivity. Qed.
+
+Lemma is_core_shape_of o : is_core o = true -> is_core_shape o = true.
+Proof. unfold is_core. intros H. apply andb_prop in H. apply H. Qed.
+Lemma memarg_ok_of o : is_core o = true -> memarg_ok o = true.
+Proof. unfold is_core. intros H. apply andb_prop in H. apply H. Qed.
+Lemma offset_ok_of o : memarg_ok o = true -> offset_ok o = true.
+Proof. unfold memarg_ok. intros H. apply andb_prop in H. apply H. Qed.
+Lemma align_ok_of o : memarg_ok o = true -> align_ok o = true.
+Proof. unfold memarg_ok. intros H. apply andb_prop in H. apply H. Qed.
+(* only the 19 loads / stores of the core can fail [memarg_ok] *)
+Lemma memarg_ok_nonmem o : memarg_of o = None -> memarg_ok o = true.
+Proof. intros H. unfold memarg_ok, offset_ok, align_ok. rewrite H. reflexivity. Qed.
 
 (* ================================================================== 2. the renaming *)
-(* what decode-then-encode does to a core operator: the five local / global operators get their
-   index renumbered, everything else is literally unchanged *)
-Definition ren_core (rl rg : N -> N) (o : wop) : wop :=
+(* ---- what decode-then-encode does to a memory immediate (Gen/Ops.v: decode_plain keeps
+   [1 << align mod 2^32] and [offset mod 2^32]; enc_memarg takes the logarithm back) *)
+Definition ren_memarg (rm : N -> N) (m : w_memarg) : w_memarg :=
+  {| wa_align := log2_loop 64 (N.shiftl 1 (wa_align m) mod 2^32) 0;
+     wa_offset := wa_offset m mod 2^32;
+     wa_memory := rm (wa_memory m) |}.
+
+(* THE ALIGNMENT EXPONENT: the round trip is the identity exactly for the exponents below 32; every exponent
+   from 32 on comes back as 0 (2^a mod 2^32 = 0, and the logarithm of 0 is taken to be 0) *)
+Lemma align_small a : a < 32 -> log2_loop 64 (N.shiftl 1 a mod 2^32) 0 = a.
+Proof.
+  intros H. destruct a as [|p]; [reflexivity|].
+  do 6 (try destruct p as [p|p|]); try reflexivity; exfalso; clear -H; lia.
+Qed.
+Lemma align_big a : 32 <= a -> log2_loop 64 (N.shiftl 1 a mod 2^32) 0 = 0.
+Proof.
+  intros H. replace a with (32 + (a - 32)) by lia.
+  rewrite N.shiftl_1_l, N.pow_add_r, N.mul_comm, N.mod_mul by discriminate. reflexivity.
+Qed.
+Theorem align_roundtrip a : log2_loop 64 (N.shiftl 1 a mod 2^32) 0 = if a <? 32 then a else 0.
+Proof.
+  destruct (N.ltb_spec a 32) as [H|H]; [apply align_small, H|apply align_big, H].
+Qed.
+Corollary align_roundtrip_id a : log2_loop 64 (N.shiftl 1 a mod 2^32) 0 = a <-> a < 32.
+Proof.
+  rewrite align_roundtrip. destruct (N.ltb_spec a 32) as [H|H]; split; intros H'; try reflexivity; try assumption; lia.
+Qed.
+(* with a 32-bit offset and an exponent below 32 only the memory index changes *)
+Lemma ren_memarg_id rm m : wa_offset m <? 2^32 = true -> wa_align m <? 32 = true ->
+  ren_memarg rm m = map_memarg (fun _ => rm) m.
+Proof.
+  intros Ho Ha. unfold ren_memarg, map_memarg. apply N.ltb_lt in Ho. apply N.ltb_lt in Ha.
+  rewrite (align_small _ Ha), (N.mod_small _ _ Ho). reflexivity.
+Qed.
+
+(* what decode-then-encode does to a core operator: the five local / global operators and the memory
+   operators get their index renumbered (and the memory immediate goes through [ren_memarg]),
+   everything else is literally unchanged *)
+Definition ren_core (rl rg rm : N -> N) (o : wop) : wop :=
   match o with
   | W_LocalGet i => W_LocalGet (rl i)
   | W_LocalSet i => W_LocalSet (rl i)
   | W_LocalTee i => W_LocalTee (rl i)
   | W_GlobalGet i => W_GlobalGet (rg i)
   | W_GlobalSet i => W_GlobalSet (rg i)
+  | W_I32Load m => W_I32Load (ren_memarg rm m)
+  | W_I64Load m => W_I64Load (ren_memarg rm m)
+  | W_I32Load8S m => W_I32Load8S (ren_memarg rm m)
+  | W_I32Load8U m => W_I32Load8U (ren_memarg rm m)
+  | W_I32Load16S m => W_I32Load16S (ren_memarg rm m)
+  | W_I32Load16U m => W_I32Load16U (ren_memarg rm m)
+  | W_I64Load8S m => W_I64Load8S (ren_memarg rm m)
+  | W_I64Load8U m => W_I64Load8U (ren_memarg rm m)
+  | W_I64Load16S m => W_I64Load16S (ren_memarg rm m)
+  | W_I64Load16U m => W_I64Load16U (ren_memarg rm m)
+  | W_I64Load32S m => W_I64Load32S (ren_memarg rm m)
+  | W_I64Load32U m => W_I64Load32U (ren_memarg rm m)
+  | W_I32Store m => W_I32Store (ren_memarg rm m)
+  | W_I64Store m => W_I64Store (ren_memarg rm m)
+  | W_I32Store8 m => W_I32Store8 (ren_memarg rm m)
+  | W_I32Store16 m => W_I32Store16 (ren_memarg rm m)
+  | W_I64Store8 m => W_I64Store8 (ren_memarg rm m)
+  | W_I64Store16 m => W_I64Store16 (ren_memarg rm m)
+  | W_I64Store32 m => W_I64Store32 (ren_memarg rm m)
+  | W_MemorySize i => W_MemorySize (rm i)
+  | W_MemoryGrow i => W_MemoryGrow (rm i)
   | o => o
   end.
 
 (* the generated codec keeps coreness (same sweep as [mu_codec] of Proofs/ModFix10.v) *)
 Lemma core_codec : forall i2id id2i o p w, decode_plain i2id o = Some p -> encode_plain id2i p = Some w ->
-  is_core w = is_core o.
+  is_core_shape w = is_core_shape o.
 Proof.
   intros i2id id2i o p w H H0.
   destruct o; cbn [decode_plain] in H;
@@ -46,13 +117,28 @@ Qed.
 Section Ren.
   Variable cx : pctx.
   Variable ecx : ectx.
-  (* the renumbering of locals / globals induced by decode-then-encode *)
+  (* the renumbering of locals / globals / memories induced by decode-then-encode *)
   Definition rl (i : N) : N := ex_id2i ecx S_local (px_i2id cx S_local i).
   Definition rg (i : N) : N := ex_id2i ecx S_global (px_i2id cx S_global i).
+  Definition rm (i : N) : N := ex_id2i ecx S_memory (px_i2id cx S_memory i).
 
   (* per constructor, from the generated tables *)
-  Lemma nf_op_core : forall o, is_core o = true -> nf_op cx ecx o = WOp (ren_core rl rg o).
+  Lemma nf_op_core : forall o, is_core_shape o = true -> nf_op cx ecx o = WOp (ren_core rl rg rm o).
   Proof. intros o H. destruct o; try discriminate H; reflexivity. Qed.
+
+  (* ... and when the memory immediate survives, the output operator is the input operator with its
+     indices renumbered ([map_idx] of Gen/Ops.v), nothing else *)
+  Lemma ren_core_map_idx : forall o, is_core o = true ->
+    ren_core rl rg rm o = map_idx (fun sp i => ex_id2i ecx sp (px_i2id cx sp i)) o.
+  Proof.
+    intros o H. pose proof (is_core_shape_of o H) as Hs. pose proof (memarg_ok_of o H) as Hm.
+    pose proof (offset_ok_of o Hm) as Ho. pose proof (align_ok_of o Hm) as Ha. clear H Hm.
+    destruct o; try discriminate Hs; try reflexivity;
+      cbn [ren_core map_idx]; f_equal; (apply ren_memarg_id; [exact Ho|exact Ha]).
+  Qed.
+  Theorem nf_op_core_map_idx : forall o, is_core o = true ->
+    nf_op cx ecx o = WOp (map_idx (fun sp i => ex_id2i ecx sp (px_i2id cx sp i)) o).
+  Proof. intros o H. rewrite (nf_op_core o (is_core_shape_of o H)), (ren_core_map_idx o H). reflexivity. Qed.
 
   Lemma nf_op_local_get i : nf_op cx ecx (W_LocalGet i) = WOp (W_LocalGet (rl i)). Proof. reflexivity. Qed.
   Lemma nf_op_local_set i : nf_op cx ecx (W_LocalSet i) = WOp (W_LocalSet (rl i)). Proof. reflexivity. Qed.
@@ -61,40 +147,84 @@ Section Ren.
   Lemma nf_op_global_set i : nf_op cx ecx (W_GlobalSet i) = WOp (W_GlobalSet (rg i)). Proof. reflexivity. Qed.
   Lemma nf_op_const32 z : nf_op cx ecx (W_I32Const z) = WOp (W_I32Const z). Proof. reflexivity. Qed.
   Lemma nf_op_const64 z : nf_op cx ecx (W_I64Const z) = WOp (W_I64Const z). Proof. reflexivity. Qed.
+  Lemma nf_op_i32_load m : nf_op cx ecx (W_I32Load m) = WOp (W_I32Load (ren_memarg rm m)). Proof. reflexivity. Qed.
+  Lemma nf_op_i64_store m : nf_op cx ecx (W_I64Store m) = WOp (W_I64Store (ren_memarg rm m)). Proof. reflexivity. Qed.
+  Lemma nf_op_memory_size i : nf_op cx ecx (W_MemorySize i) = WOp (W_MemorySize (rm i)). Proof. reflexivity. Qed.
+  Lemma nf_op_memory_grow i : nf_op cx ecx (W_MemoryGrow i) = WOp (W_MemoryGrow (rm i)). Proof. reflexivity. Qed.
 
   (* a non-core operator is re-encoded as a non-core operator, or (undecodable) as `unreachable`,
      or (unencodable) not at all: in each case the core machine traps on it *)
-  Lemma nf_op_noncore : forall l g o s, is_core o = false -> core_sem l g (nf_op cx ecx o) s = Halt Trap s.
+  Lemma nf_op_noncore : forall l g m o s, is_core_shape o = false -> core_sem l g m (nf_op cx ecx o) s = Halt Trap s.
   Proof.
-    intros l g o s H. unfold nf_op, dec.
+    intros l g m o s H. unfold nf_op, dec.
     destruct (decode_plain (px_i2id cx) o) as [p|] eqn:Hd; [|reflexivity].
     destruct (encode_plain (ex_id2i ecx) p) as [w|] eqn:He; [|reflexivity].
     apply noncore_traps. rewrite (core_codec _ _ _ _ _ Hd He). exact H.
   Qed.
 
   Section Slots.
-    Variable lslot gslot lslot' gslot' : N -> N.
+    Variable lslot gslot mslot lslot' gslot' mslot' : N -> N.
     Hypothesis H_lslot : forall i, lslot' (rl i) = lslot i.
     Hypothesis H_gslot : forall i, gslot' (rg i) = gslot i.
+    Hypothesis H_mslot : forall i, mslot' (rm i) = mslot i.
 
-    Lemma core_sem_ren_core : forall o s, is_core o = true ->
-      core_sem lslot' gslot' (WOp (ren_core rl rg o)) s = core_sem lslot gslot (WOp o) s.
+    Lemma core_sem_ren_core : forall o s, is_core_shape o = true -> offset_ok o = true ->
+      core_sem lslot' gslot' mslot' (WOp (ren_core rl rg rm o)) s = core_sem lslot gslot mslot (WOp o) s.
     Proof.
-      intros o s H. destruct o; try discriminate H; try reflexivity;
-        cbn [ren_core core_sem core_op]; rewrite ?H_lslot, ?H_gslot; reflexivity.
+      intros o s H Ho. destruct o; try discriminate H; try reflexivity;
+        cbn [ren_core core_sem core_op ren_memarg wa_memory wa_offset];
+        rewrite ?H_lslot, ?H_gslot, ?H_mslot; try reflexivity;
+        (rewrite N.mod_small; [reflexivity|apply N.ltb_lt; exact Ho]).
     Qed.
 
     (* THE RENAMING LEMMA: the re-encoded operator on the renumbered slots does what the
-       original operator does on the original slots - for every operator, core or not *)
-    Theorem core_sem_renamed : forall o s,
-      core_sem lslot' gslot' (nf_op cx ecx o) s = core_sem lslot gslot (WOp o) s.
+       original operator does on the original slots - for every operator, core or not, whose offset
+       immediate (if it is a load / store of the core) fits in 32 bits.  The alignment immediate may
+       change (an exponent >= 32 becomes 0): it has no meaning. *)
+    Theorem core_sem_renamed : forall o s, offset_ok o = true ->
+      core_sem lslot' gslot' mslot' (nf_op cx ecx o) s = core_sem lslot gslot mslot (WOp o) s.
     Proof.
-      intros o s. destruct (is_core o) eqn:H.
-      - rewrite (nf_op_core o H). apply core_sem_ren_core, H.
-      - rewrite (nf_op_noncore _ _ o s H), (noncore_traps _ _ o s H). reflexivity.
+      intros o s Ho. destruct (is_core_shape o) eqn:H.
+      - rewrite (nf_op_core o H). apply core_sem_ren_core; assumption.
+      - rewrite (nf_op_noncore _ _ _ o s H), (noncore_traps _ _ _ o s H). reflexivity.
     Qed.
   End Slots.
 End Ren.
+
+(* WITHOUT the bound on the offset the renaming lemma is FALSE: walrus keeps [offset mod 2^32].
+   Identity contexts and slot maps; one page of memory; `i32.load offset=2^32` at address 0 is out of
+   bounds in the input and, re-encoded with offset 0, in bounds in the output. *)
+Definition cx_id : pctx := {| px_i2id := fun _ i => i; px_types := [] |}.
+Definition ecx_id : ectx := {| ex_id2i := fun _ i => i; ex_ilen := fun _ => 1 |}.
+Definition big_load : wop := W_I32Load {| wa_align := 2; wa_offset := 4294967296; wa_memory := 0 |}.
+Definition big_store : wop := W_I32Store {| wa_align := 2; wa_offset := 4294967296 + 8; wa_memory := 0 |}.
+Definition s_big : st :=
+  {| stk := [VI32 7; VI32 0]; locs := []; globs := []; labs := []; mem := [(0, 42)]; pages := 1; max_pages := 1 |}.
+Theorem core_sem_renamed_big_offset_refuted :
+  exists cx ecx (lslot gslot mslot lslot' gslot' mslot' : N -> N) o s,
+    (forall i, lslot' (rl cx ecx i) = lslot i) /\
+    (forall i, gslot' (rg cx ecx i) = gslot i) /\
+    (forall i, mslot' (rm cx ecx i) = mslot i) /\
+    is_core_shape o = true /\ align_ok o = true /\
+    core_sem lslot gslot mslot (WOp o) s = Halt Trap s /\
+    core_sem lslot' gslot' mslot' (nf_op cx ecx o) s
+      = Next {| stk := [VI32 42; VI32 0]; locs := []; globs := []; labs := []; mem := [(0, 42)]; pages := 1; max_pages := 1 |}.
+Proof.
+  exists cx_id, ecx_id, (fun i => i), (fun i => i), (fun i => i), (fun i => i), (fun i => i), (fun i => i),
+    big_load, {| stk := [VI32 0; VI32 0]; locs := []; globs := []; labs := []; mem := [(0, 42)]; pages := 1; max_pages := 1 |}.
+  repeat split; vm_compute; reflexivity.
+Qed.
+(* the same for a store: the input traps, the output WRITES memory (at 8) *)
+Example big_store_in : core_sem (fun i => i) (fun i => i) (fun i => i) (WOp big_store) s_big = Halt Trap s_big.
+Proof. vm_compute. reflexivity. Qed.
+Example big_store_out : core_sem (fun i => i) (fun i => i) (fun i => i) (nf_op cx_id ecx_id big_store) s_big
+  = Next {| stk := []; locs := []; globs := []; labs := [];
+            mem := [(0, 42); (8, 7); (9, 0); (10, 0); (11, 0)]; pages := 1; max_pages := 1 |}.
+Proof. vm_compute. reflexivity. Qed.
+(* the alignment exponent, by contrast, may change without any effect: 40 comes back as 0 *)
+Example big_align_out : nf_op cx_id ecx_id (W_I32Load {| wa_align := 40; wa_offset := 4; wa_memory := 0 |})
+  = WOp (W_I32Load {| wa_align := 0; wa_offset := 4; wa_memory := 0 |}).
+Proof. vm_compute. reflexivity. Qed.
 
 (* ================================================================== 3. block types *)
 Lemma existing_simple_none cx ps rs : existing cx ps rs = Some (ST_Simple None) -> ps = [] /\ rs = [].
@@ -155,12 +285,13 @@ Proof.
   replace (length extra + length base - length base)%nat with (length extra) by lia.
   rewrite skipn_app, skipn_all, Nat.sub_diag. reflexivity.
 Qed.
-Theorem unwind_exact : forall vs extra base ls lo gl,
+Theorem unwind_exact : forall vs extra base ls lo gl me pg mx,
   unwind (N.of_nat (length vs))
-    {| stk := vs ++ extra ++ base; locs := lo; globs := gl; labs := N.of_nat (length base) :: ls |}
-  = {| stk := vs ++ base; locs := lo; globs := gl; labs := ls |}.
+    {| stk := vs ++ extra ++ base; locs := lo; globs := gl; labs := N.of_nat (length base) :: ls;
+       mem := me; pages := pg; max_pages := mx |}
+  = {| stk := vs ++ base; locs := lo; globs := gl; labs := ls; mem := me; pages := pg; max_pages := mx |}.
 Proof.
-  intros vs extra base ls lo gl. unfold unwind. cbn [labs stk locs globs]. f_equal.
+  intros vs extra base ls lo gl me pg mx. unfold unwind. cbn [labs stk locs globs mem pages max_pages]. f_equal.
   rewrite Nnat.Nat2N.id, firstn_app, firstn_all, Nat.sub_diag. cbn [firstn]. rewrite app_nil_r.
   f_equal. rewrite app_assoc. apply bottom_app.
 Qed.
@@ -175,30 +306,34 @@ Proof. split; reflexivity. Qed.
 (* Running the NORMAL FORM (nop / dead code dropped, `else` synthesised) with every operator and
    block type re-encoded ([sem_ren] applies [nf_op], the arities go through [nf_bt]) on the
    RENUMBERED slot maps and the OUTPUT type table gives exactly the same result - final stack,
-   locals, globals; fall-through / branch / return / trap / stuck / out of fuel - as running the
-   input body.  Instance of [nf_equiv_renamed] (Proofs/Sem.v). *)
-Theorem core_roundtrip_equiv : forall cx ecx lslot gslot lslot' gslot' tys tys',
+   locals, globals, MEMORY and its size; fall-through / branch / return / trap / stuck / out of fuel -
+   as running the input body, PROVIDED every load / store of the body (dead code included) has a memory
+   immediate that survives the round trip.  Instance of [nf_equiv_renamed_on] (Proofs/Sem.v): the
+   per-operator hypothesis is only needed - and only true - for the operators that occur. *)
+Theorem core_roundtrip_equiv : forall cx ecx lslot gslot mslot lslot' gslot' mslot' tys tys',
   (forall i, lslot' (rl cx ecx i) = lslot i) ->
   (forall i, gslot' (rg cx ecx i) = gslot i) ->
+  (forall i, mslot' (rm cx ecx i) = mslot i) ->
   (forall bt, arity tys' (nf_bt cx ecx bt) = arity tys bt) ->
   (forall bt, loop_arity tys' (nf_bt cx ecx bt) = loop_arity tys bt) ->
   (forall bt, nparams tys' (nf_bt cx ecx bt) = nparams tys bt) ->
-  forall fuel l s,
+  forall l, (forall o, In o (ops_of l) -> memarg_ok o = true) ->
+  forall fuel s,
     eval st halt pop_cond pop_index unwind (fun bt => enter tys' (nf_bt cx ecx bt)) leave
-      (sem_ren st halt cx ecx (core_sem lslot' gslot'))
+      (sem_ren st halt cx ecx (core_sem lslot' gslot' mslot'))
       (fun bt => arity tys' (nf_bt cx ecx bt)) (fun bt => loop_arity tys' (nf_bt cx ecx bt))
       fuel (fst (nf_rt_list false l)) s
-    = run_core lslot gslot tys fuel l s.
+    = run_core lslot gslot mslot tys fuel l s.
 Proof.
-  intros cx ecx lslot gslot lslot' gslot' tys tys' Hl Hg Ha Hla Hnp fuel l s. unfold run_core.
-  apply (nf_equiv_renamed st halt pop_cond pop_index unwind leave cx ecx
-           (core_sem lslot gslot) (core_sem lslot' gslot') (enter tys) (enter tys')
+  intros cx ecx lslot gslot mslot lslot' gslot' mslot' tys tys' Hl Hg Hm Ha Hla Hnp l Hok fuel s. unfold run_core.
+  apply (nf_equiv_renamed_on st halt pop_cond pop_index unwind leave cx ecx
+           (core_sem lslot gslot mslot) (core_sem lslot' gslot' mslot') (enter tys) (enter tys')
            (arity tys) (arity tys') (loop_arity tys) (loop_arity tys')).
-  - intros o s0. apply core_sem_renamed; assumption.
+  - intros o Ho s0. apply core_sem_renamed; try assumption. apply offset_ok_of, Hok, Ho.
   - intros bt s0. apply enter_nparams, Hnp.
   - exact Ha.
   - exact Hla.
-  - intros o s0. apply core_never_falls.
+  - intros o _ Hu s0. apply core_never_falls, Hu.
 Qed.
 
 (* ---- the output as a TREE: [ren_t] (Proofs/ModFix10.v) puts [nf_op o] / [nf_bt bt] into the tree;
@@ -293,35 +428,52 @@ End RenTree.
 (* THE END-TO-END STATEMENT ON TREES: the output body - the tree whose flattening is the emitted
    operator stream - run by the same machine on the renumbered slots and the output type table,
    gives exactly the result of the input body. *)
-Theorem core_roundtrip_equiv_tree : forall cx ecx lslot gslot lslot' gslot' tys tys',
+Theorem core_roundtrip_equiv_tree : forall cx ecx lslot gslot mslot lslot' gslot' mslot' tys tys',
   (forall i, lslot' (rl cx ecx i) = lslot i) ->
   (forall i, gslot' (rg cx ecx i) = gslot i) ->
+  (forall i, mslot' (rm cx ecx i) = mslot i) ->
   (forall bt, arity tys' (nf_bt cx ecx bt) = arity tys bt) ->
   (forall bt, loop_arity tys' (nf_bt cx ecx bt) = loop_arity tys bt) ->
   (forall bt, nparams tys' (nf_bt cx ecx bt) = nparams tys bt) ->
-  forall fuel l s,
-    run_core lslot' gslot' tys' fuel (map (ren_t cx ecx) (fst (nf_rt_list false l))) s
-    = run_core lslot gslot tys fuel l s.
+  forall l, (forall o, In o (ops_of l) -> memarg_ok o = true) ->
+  forall fuel s,
+    run_core lslot' gslot' mslot' tys' fuel (map (ren_t cx ecx) (fst (nf_rt_list false l))) s
+    = run_core lslot gslot mslot tys fuel l s.
 Proof.
-  intros cx ecx lslot gslot lslot' gslot' tys tys' Hl Hg Ha Hla Hnp fuel l s.
+  intros cx ecx lslot gslot mslot lslot' gslot' mslot' tys tys' Hl Hg Hm Ha Hla Hnp l Hok fuel s.
   unfold run_core at 1. rewrite eval_ren_t. apply core_roundtrip_equiv; assumption.
 Qed.
 
 (* ... with the arity and parameter-count hypotheses derived from the type tables *)
-Theorem core_roundtrip_equiv_tys : forall cx ecx lslot gslot lslot' gslot' tys tys',
+Theorem core_roundtrip_equiv_tys : forall cx ecx lslot gslot mslot lslot' gslot' mslot' tys tys',
   (forall i, lslot' (rl cx ecx i) = lslot i) ->
   (forall i, gslot' (rg cx ecx i) = gslot i) ->
+  (forall i, mslot' (rm cx ecx i) = mslot i) ->
   (forall i, tys i = bt_tys cx (BT_Func i)) ->
   (forall i ps rs, tys i = Some (ps, rs) -> existing cx ps rs <> None) ->
   (forall ps rs ty, find_type cx ps rs = Some ty -> tys' (ex_id2i ecx S_type ty) = Some (ps, rs)) ->
-  forall fuel l s,
-    run_core lslot' gslot' tys' fuel (map (ren_t cx ecx) (fst (nf_rt_list false l))) s
-    = run_core lslot gslot tys fuel l s.
+  forall l, (forall o, In o (ops_of l) -> memarg_ok o = true) ->
+  forall fuel s,
+    run_core lslot' gslot' mslot' tys' fuel (map (ren_t cx ecx) (fst (nf_rt_list false l))) s
+    = run_core lslot gslot mslot tys fuel l s.
 Proof.
-  intros cx ecx lslot gslot lslot' gslot' tys tys' Hl Hg H1 H2 H3 fuel l s.
+  intros cx ecx lslot gslot mslot lslot' gslot' mslot' tys tys' Hl Hg Hm H1 H2 H3 l Hok fuel s.
   apply core_roundtrip_equiv_tree; try assumption; intros bt;
     first [ apply (nparams_nf_bt cx ecx tys tys' H1 H2 H3 bt) | apply (arities_nf_bt cx ecx tys tys' H1 H2 H3 bt) ].
 Qed.
+
+(* a body without loads / stores needs no premise: the earlier statement, for the larger core *)
+Fixpoint no_mem_ops (l : list wop) : bool :=
+  match l with [] => true | o :: r => match memarg_of o with None => no_mem_ops r | Some _ => false end end.
+Lemma no_mem_ops_ok l : no_mem_ops l = true -> forall o, In o l -> memarg_ok o = true.
+Proof.
+  induction l as [|x r IH]; intros H o Ho; [contradiction|].
+  cbn [no_mem_ops] in H. destruct (memarg_of x) eqn:E; [discriminate H|].
+  destruct Ho as [<-|Ho]; [apply memarg_ok_nonmem, E|apply IH; assumption].
+Qed.
+(* ... and the premise is decidable by running [forallb memarg_ok] over the operators of the body *)
+Lemma memarg_ok_forallb l : forallb memarg_ok (ops_of l) = true -> forall o, In o (ops_of l) -> memarg_ok o = true.
+Proof. intros H. apply forallb_forall, H. Qed.
 
 (* the emitted operator stream is the flattening of that output tree *)
 Theorem core_output_tree_is_emitted : forall cx ecx l,
@@ -333,14 +485,15 @@ Module Ex.
   Local Open Scope N_scope.
   Definition swap01 (i : N) : N := if i =? 0 then 1 else if i =? 1 then 0 else i.
   (* a parse context with identity ids, and an emit context that swaps locals 0 and 1 and
-     shifts every global up by one (a global was added in front) *)
+     shifts every global up by one (a global was added in front) and every memory up by two *)
   Definition cx0 : pctx := {| px_i2id := fun _ i => i; px_types := [] |}.
   Definition ecx0 : ectx :=
-    {| ex_id2i := fun sp i => match sp with S_local => swap01 i | S_global => i + 1 | _ => i end;
+    {| ex_id2i := fun sp i => match sp with S_local => swap01 i | S_global => i + 1 | S_memory => i + 2 | _ => i end;
        ex_ilen := fun _ => 1 |}.
   Definition idN (i : N) : N := i.
   Definition lslot' : N -> N := swap01.          (* output index -> slot *)
   Definition gslot' (i : N) : N := i - 1.
+  Definition mslot' (i : N) : N := if i <? 2 then 1 else i - 2.   (* output memories 0 and 1 are NOT the memory *)
   Definition no_tys (i : N) : option (list valty * list valty) := None.
 
   Lemma lslot'_ok : forall i, lslot' (rl cx0 ecx0 i) = idN i.
@@ -353,6 +506,11 @@ Module Ex.
   Qed.
   Lemma gslot'_ok : forall i, gslot' (rg cx0 ecx0 i) = idN i.
   Proof. intros i. unfold gslot', rg, idN. cbn [cx0 ecx0 px_i2id ex_id2i]. apply N.add_sub. Qed.
+  Lemma mslot'_ok : forall i, mslot' (rm cx0 ecx0 i) = idN i.
+  Proof.
+    intros i. unfold mslot', rm, idN. cbn [cx0 ecx0 px_i2id ex_id2i].
+    destruct (N.ltb_spec (i + 2) 2) as [H|H]; [lia|]. apply N.add_sub.
+  Qed.
   Lemma arity0_ok : forall bt, arity no_tys (nf_bt cx0 ecx0 bt) = arity no_tys bt.
   Proof.
     intros [|t|i]; try reflexivity. unfold nf_bt, bt_seqty, bt_tys, nth_N. cbn [cx0 px_types px_i2id].
@@ -368,12 +526,13 @@ Module Ex.
   Proof. intros bt. rewrite !nparams_loop_arity. apply loop_arity0_ok. Qed.
 
   (* the hypotheses of the end-to-end statement are satisfiable, with a NON-trivial renumbering *)
-  Theorem ex_equiv : forall fuel l s,
-    run_core lslot' gslot' no_tys fuel (map (ren_t cx0 ecx0) (fst (nf_rt_list false l))) s
-    = run_core idN idN no_tys fuel l s.
+  Theorem ex_equiv : forall l, (forall o, In o (ops_of l) -> memarg_ok o = true) -> forall fuel s,
+    run_core lslot' gslot' mslot' no_tys fuel (map (ren_t cx0 ecx0) (fst (nf_rt_list false l))) s
+    = run_core idN idN idN no_tys fuel l s.
   Proof.
-    intros. apply core_roundtrip_equiv_tree.
-    - exact lslot'_ok. - exact gslot'_ok. - exact arity0_ok. - exact loop_arity0_ok. - exact nparams0_ok.
+    intros l Hok fuel s. apply core_roundtrip_equiv_tree.
+    - exact lslot'_ok. - exact gslot'_ok. - exact mslot'_ok. - exact arity0_ok. - exact loop_arity0_ok. - exact nparams0_ok.
+    - exact Hok.
   Qed.
 
   Definition P (o : wop) : rt := RPlain o 0.
@@ -388,15 +547,15 @@ Module Ex.
               P (W_LocalGet 0); P (W_I32Const 1); P W_I32Sub; P (W_LocalSet 0);
               RBr 0 0 ] 0 0 ] 0 0;
       P (W_LocalGet 1) ].
-  Definition s_n (n : N) : st := {| stk := []; locs := [(0, VI32 n); (1, VI32 0)]; globs := [(0, VI32 7)]; labs := [] |}.
+  Definition s_n (n : N) : st := {| stk := []; locs := [(0, VI32 n); (1, VI32 0)]; globs := [(0, VI32 7)]; labs := []; mem := []; pages := 0; max_pages := 0 |}.
 
-  Example fact5 : run_core idN idN no_tys 5 fact (s_n 5)
-    = Fall {| stk := [VI32 120]; locs := [(0, VI32 0); (1, VI32 120)]; globs := [(0, VI32 7)]; labs := [] |}.
+  Example fact5 : run_core idN idN idN no_tys 5 fact (s_n 5)
+    = Fall {| stk := [VI32 120]; locs := [(0, VI32 0); (1, VI32 120)]; globs := [(0, VI32 7)]; labs := []; mem := []; pages := 0; max_pages := 0 |}.
   Proof. vm_compute. reflexivity. Qed.
-  Example fact5_fuel : run_core idN idN no_tys 4 fact (s_n 5) = Fuel.
+  Example fact5_fuel : run_core idN idN idN no_tys 4 fact (s_n 5) = Fuel.
   Proof. vm_compute. reflexivity. Qed.
   (* wrapping: 13! = 6227020800 = 1932053504 mod 2^32 *)
-  Example fact13 : match run_core idN idN no_tys 20 fact (s_n 13) with Fall s => stk s | _ => [] end = [VI32 1932053504].
+  Example fact13 : match run_core idN idN idN no_tys 20 fact (s_n 13) with Fall s => stk s | _ => [] end = [VI32 1932053504].
   Proof. vm_compute. reflexivity. Qed.
 
   (* the same with nops, dead code after `br`, a `return` followed by a dead division by zero,
@@ -431,59 +590,59 @@ Module Ex.
   Proof. vm_compute. reflexivity. Qed.
 
   Definition r4 : res st halt :=
-    Stop Return {| stk := [VI32 24]; locs := [(0, VI32 0); (1, VI32 24)]; globs := [(0, VI32 8)]; labs := [] |}.
-  Example dirty_in : run_core idN idN no_tys 9 fact_dirty (s_n 4) = r4.
+    Stop Return {| stk := [VI32 24]; locs := [(0, VI32 0); (1, VI32 24)]; globs := [(0, VI32 8)]; labs := []; mem := []; pages := 0; max_pages := 0 |}.
+  Example dirty_in : run_core idN idN idN no_tys 9 fact_dirty (s_n 4) = r4.
   Proof. vm_compute. reflexivity. Qed.
   (* the output tree on the renumbered slots: same result, same state *)
-  Example dirty_out : run_core lslot' gslot' no_tys 9 (map (ren_t cx0 ecx0) (fst (nf_rt_list false fact_dirty))) (s_n 4) = r4.
+  Example dirty_out : run_core lslot' gslot' mslot' no_tys 9 (map (ren_t cx0 ecx0) (fst (nf_rt_list false fact_dirty))) (s_n 4) = r4.
   Proof. vm_compute. reflexivity. Qed.
   (* the renumbering matters: the output tree on the ORIGINAL slot maps does something else *)
   Example dirty_out_unrenumbered :
-    run_core idN idN no_tys 9 (map (ren_t cx0 ecx0) (fst (nf_rt_list false fact_dirty))) (s_n 4) <> r4.
+    run_core idN idN idN no_tys 9 (map (ren_t cx0 ecx0) (fst (nf_rt_list false fact_dirty))) (s_n 4) <> r4.
   Proof. vm_compute. discriminate. Qed.
   (* 5! = 120 >= 100: the `if` is not taken, the global stays *)
-  Example dirty_in5 : run_core idN idN no_tys 9 fact_dirty (s_n 5)
-    = Stop Return {| stk := [VI32 120]; locs := [(0, VI32 0); (1, VI32 120)]; globs := [(0, VI32 7)]; labs := [] |}.
+  Example dirty_in5 : run_core idN idN idN no_tys 9 fact_dirty (s_n 5)
+    = Stop Return {| stk := [VI32 120]; locs := [(0, VI32 0); (1, VI32 120)]; globs := [(0, VI32 7)]; labs := []; mem := []; pages := 0; max_pages := 0 |}.
   Proof. vm_compute. reflexivity. Qed.
 
   (* traps *)
-  Example div_zero : run_core idN idN no_tys 0 [P (W_I32Const 1); P (W_I32Const 0); P W_I32DivU; P W_Drop] (s_n 0)
-    = Stop Trap {| stk := [VI32 0; VI32 1]; locs := locs (s_n 0); globs := globs (s_n 0); labs := [] |}.
+  Example div_zero : run_core idN idN idN no_tys 0 [P (W_I32Const 1); P (W_I32Const 0); P W_I32DivU; P W_Drop] (s_n 0)
+    = Stop Trap {| stk := [VI32 0; VI32 1]; locs := locs (s_n 0); globs := globs (s_n 0); labs := []; mem := []; pages := 0; max_pages := 0 |}.
   Proof. vm_compute. reflexivity. Qed.
-  Example div_ok : match run_core idN idN no_tys 0 [P (W_I32Const 17); P (W_I32Const 5); P W_I32DivU;
+  Example div_ok : match run_core idN idN idN no_tys 0 [P (W_I32Const 17); P (W_I32Const 5); P W_I32DivU;
                                                     P (W_I32Const 17); P (W_I32Const 5); P W_I32RemU] (s_n 0)
                    with Fall s => stk s | _ => [] end = [VI32 2; VI32 3].
   Proof. vm_compute. reflexivity. Qed.
-  Example underflow : run_core idN idN no_tys 0 [P (W_I32Const 1); P W_I32Add] (s_n 0)
-    = Stop Trap {| stk := [VI32 1]; locs := locs (s_n 0); globs := globs (s_n 0); labs := [] |}.
+  Example underflow : run_core idN idN idN no_tys 0 [P (W_I32Const 1); P W_I32Add] (s_n 0)
+    = Stop Trap {| stk := [VI32 1]; locs := locs (s_n 0); globs := globs (s_n 0); labs := []; mem := []; pages := 0; max_pages := 0 |}.
   Proof. vm_compute. reflexivity. Qed.
-  Example type_mismatch : match run_core idN idN no_tys 0 [P (W_I64Const 1); P (W_I32Const 1); P W_I32Add] (s_n 0)
+  Example type_mismatch : match run_core idN idN idN no_tys 0 [P (W_I64Const 1); P (W_I32Const 1); P W_I32Add] (s_n 0)
                           with Stop Trap _ => true | _ => false end = true.
   Proof. vm_compute. reflexivity. Qed.
-  Example outside_core : match run_core idN idN no_tys 0 [P W_F32Abs] (s_n 0) with Stop Trap _ => true | _ => false end = true.
+  Example outside_core : match run_core idN idN idN no_tys 0 [P W_F32Abs] (s_n 0) with Stop Trap _ => true | _ => false end = true.
   Proof. vm_compute. reflexivity. Qed.
   (* a condition that is not there: stuck, not a trap (the abstract evaluator's verdict) *)
-  Example stuck : run_core idN idN no_tys 0 [RBrIf 0 0] (s_n 0) = Stuck.
+  Example stuck : run_core idN idN idN no_tys 0 [RBrIf 0 0] (s_n 0) = Stuck.
   Proof. vm_compute. reflexivity. Qed.
 
   (* ---- exact labels: a branch taken with SURPLUS values above the label's height.
      block (result i32) i32.const 1 i32.const 2 i32.const 3 br 0 end   leaves exactly [3] above what was there *)
-  Definition s_base : st := {| stk := [VI32 9]; locs := []; globs := []; labs := [] |}.
+  Definition s_base : st := {| stk := [VI32 9]; locs := []; globs := []; labs := []; mem := []; pages := 0; max_pages := 0 |}.
   Definition surplus : list rt :=
     [ RBlock (BT_Val VT_I32) [ P (W_I32Const 1); P (W_I32Const 2); P (W_I32Const 3); RBr 0 0 ] 0 0 ].
-  Example surplus_exact : run_core idN idN no_tys 0 surplus s_base
-    = Fall {| stk := [VI32 3; VI32 9]; locs := []; globs := []; labs := [] |}.
+  Example surplus_exact : run_core idN idN idN no_tys 0 surplus s_base
+    = Fall {| stk := [VI32 3; VI32 9]; locs := []; globs := []; labs := []; mem := []; pages := 0; max_pages := 0 |}.
   Proof. vm_compute. reflexivity. Qed.
   (* the lax [unwind k s := s] (the machine before label records) keeps the surplus: a different stack *)
-  Example surplus_lax : run_core_lax idN idN no_tys 0 surplus s_base
-    = Fall {| stk := [VI32 3; VI32 2; VI32 1; VI32 9]; locs := []; globs := []; labs := [] |}.
+  Example surplus_lax : run_core_lax idN idN idN no_tys 0 surplus s_base
+    = Fall {| stk := [VI32 3; VI32 2; VI32 1; VI32 9]; locs := []; globs := []; labs := []; mem := []; pages := 0; max_pages := 0 |}.
   Proof. vm_compute. reflexivity. Qed.
-  Example surplus_differs : run_core_lax idN idN no_tys 0 surplus s_base <> run_core idN idN no_tys 0 surplus s_base.
+  Example surplus_differs : run_core_lax idN idN idN no_tys 0 surplus s_base <> run_core idN idN idN no_tys 0 surplus s_base.
   Proof. vm_compute. discriminate. Qed.
   (* a branch to an OUTER label passes through the inner one: both records are popped, the outer height counts *)
-  Example surplus_outer : run_core idN idN no_tys 0
+  Example surplus_outer : run_core idN idN idN no_tys 0
       [ RBlock (BT_Val VT_I32) [ P (W_I32Const 1); RBlock BT_Empty [ P (W_I32Const 2); P (W_I32Const 3); RBr 1 0 ] 0 0 ] 0 0 ] s_base
-    = Fall {| stk := [VI32 3; VI32 9]; locs := []; globs := []; labs := [] |}.
+    = Fall {| stk := [VI32 3; VI32 9]; locs := []; globs := []; labs := []; mem := []; pages := 0; max_pages := 0 |}.
   Proof. vm_compute. reflexivity. Qed.
   (* a loop re-entered with junk on the stack: every `br 0` drops it (a loop label of an empty block type keeps 0),
      re-entering records the same height again; the lax machine accumulates the junk *)
@@ -494,31 +653,31 @@ Module Ex.
               P (W_I32Const 7);
               P (W_LocalGet 0); P (W_I32Const 1); P W_I32Sub; P (W_LocalSet 0);
               RBr 0 0 ] 0 0 ] 0 0 ].
-  Example junk_exact : run_core idN idN no_tys 5 junk_loop (s_n 3)
-    = Fall {| stk := []; locs := [(0, VI32 0); (1, VI32 0)]; globs := [(0, VI32 7)]; labs := [] |}.
+  Example junk_exact : run_core idN idN idN no_tys 5 junk_loop (s_n 3)
+    = Fall {| stk := []; locs := [(0, VI32 0); (1, VI32 0)]; globs := [(0, VI32 7)]; labs := []; mem := []; pages := 0; max_pages := 0 |}.
   Proof. vm_compute. reflexivity. Qed.
-  Example junk_lax : match run_core_lax idN idN no_tys 5 junk_loop (s_n 3) with Fall s => stk s | _ => [] end
+  Example junk_lax : match run_core_lax idN idN idN no_tys 5 junk_loop (s_n 3) with Fall s => stk s | _ => [] end
     = [VI32 7; VI32 7; VI32 7].
   Proof. vm_compute. reflexivity. Qed.
   (* a block type with a PARAMETER: type 0 = [i32] -> [i32]; the recorded height is below the parameter *)
   Definition tys1 (i : N) : option (list valty * list valty) := if i =? 0 then Some ([VT_I32], [VT_I32]) else None.
-  Example param_block : run_core idN idN tys1 0
+  Example param_block : run_core idN idN idN tys1 0
       [ P (W_I32Const 5); RBlock (BT_Func 0) [ P (W_I32Const 6); P (W_I32Const 7); RBr 0 0 ] 0 0 ] s_base
-    = Fall {| stk := [VI32 7; VI32 9]; locs := []; globs := []; labs := [] |}.
+    = Fall {| stk := [VI32 7; VI32 9]; locs := []; globs := []; labs := []; mem := []; pages := 0; max_pages := 0 |}.
   Proof. vm_compute. reflexivity. Qed.
-  Example param_block_fall : run_core idN idN tys1 0
+  Example param_block_fall : run_core idN idN idN tys1 0
       [ P (W_I32Const 5); RBlock (BT_Func 0) [ P (W_I32Const 1); P W_I32Add ] 0 0 ] s_base
-    = Fall {| stk := [VI32 6; VI32 9]; locs := []; globs := []; labs := [] |}.
+    = Fall {| stk := [VI32 6; VI32 9]; locs := []; globs := []; labs := []; mem := []; pages := 0; max_pages := 0 |}.
   Proof. vm_compute. reflexivity. Qed.
   (* a halt inside nested constructs carries no cleanup: the records are still there *)
-  Example halt_keeps_records : run_core idN idN no_tys 0
+  Example halt_keeps_records : run_core idN idN idN no_tys 0
       [ RBlock BT_Empty [ P (W_I32Const 1); RBlock BT_Empty [ P W_Return ] 0 0 ] 0 0 ] s_base
-    = Stop Return {| stk := [VI32 1; VI32 9]; locs := []; globs := []; labs := [2; 1] |}.
+    = Stop Return {| stk := [VI32 1; VI32 9]; locs := []; globs := []; labs := [2; 1]; mem := []; pages := 0; max_pages := 0 |}.
   Proof. vm_compute. reflexivity. Qed.
 
   (* two's complement: -1 <s 1 but not <u; 0 - 1 wraps; shifts count modulo 32; wrap / extend *)
   Definition top (l : list rt) : list val :=
-    match run_core idN idN no_tys 0 l (s_n 0) with Fall s => stk s | _ => [] end.
+    match run_core idN idN idN no_tys 0 l (s_n 0) with Fall s => stk s | _ => [] end.
   Example signed_lt : top [P (W_I32Const (-1)); P (W_I32Const 1); P W_I32LtS;
                            P (W_I32Const (-1)); P (W_I32Const 1); P W_I32LtU] = [VI32 0; VI32 1].
   Proof. vm_compute. reflexivity. Qed.
@@ -535,10 +694,237 @@ Module Ex.
   Example select_tee : top [P (W_I32Const 10); P (W_I32Const 20); P (W_I32Const 0); P W_Select; P (W_LocalTee 1);
                             P (W_LocalGet 1); P W_I32Xor] = [VI32 0].
   Proof. vm_compute. reflexivity. Qed.
+
+  (* ================================================================ the second batch of operators and linear memory *)
+  (* one page of memory, at most two *)
+  Definition s_m : st :=
+    {| stk := []; locs := [(0, VI32 0); (1, VI64 0)]; globs := []; labs := []; mem := []; pages := 1; max_pages := 2 |}.
+  Definition with_s_m (k : list val) (m : list (N * N)) (p : N) : st :=
+    {| stk := k; locs := locs s_m; globs := []; labs := []; mem := m; pages := p; max_pages := 2 |}.
+  Definition ma (off : N) : w_memarg := {| wa_align := 0; wa_offset := off; wa_memory := 0 |}.
+  Definition runm (l : list rt) : res st halt := run_core idN idN idN no_tys 0 l s_m.
+  Definition topm (l : list rt) : list val := match runm l with Fall s => stk s | _ => [] end.
+  Definition I (z : Z) : rt := P (W_I32Const z).
+  Definition L (z : Z) : rt := P (W_I64Const z).
+
+  (* ---- store then load, every width.  i32.store 0x80FF7F01 at 16; little-endian: bytes 01 7F FF 80 *)
+  Example store_little_endian :
+    match runm [I 0; I 67305985 (* 0x04030201 *); P (W_I32Store (ma 0))] with Fall s => mem s | _ => [] end
+    = [(0, 1); (1, 2); (2, 3); (3, 4)].
+  Proof. vm_compute. reflexivity. Qed.
+  Example store_load_i32 : topm [I 16; I 2164227841; P (W_I32Store (ma 0));
+      I 16; P (W_I32Load (ma 0));            (* 0x80FF7F01 *)
+      I 16; P (W_I32Load8U (ma 0));          (* 0x01 *)
+      I 16; P (W_I32Load8S (ma 3));          (* 0x80 -> 0xFFFFFF80: the OFFSET is added *)
+      I 0; P (W_I32Load8U (ma 19));          (* 0x80, all of the address in the offset *)
+      I 16; P (W_I32Load16U (ma 0));         (* 0x7F01 *)
+      I 16; P (W_I32Load16S (ma 2));         (* 0x80FF -> 0xFFFF80FF *)
+      I 16; P (W_I32Load16S (ma 0));         (* 0x7F01, positive *)
+      I 17; P (W_I32Load8S (ma 0))]          (* 0x7F, positive *)
+    = [VI32 127; VI32 32513; VI32 4294934783; VI32 32513; VI32 128; VI32 4294967168; VI32 1; VI32 2164227841].
+  Proof. vm_compute. reflexivity. Qed.
+  (* i64.store 0x8877665544332211 at 8+8 *)
+  Example store_load_i64 : topm [I 8; L 9833440827789222417; P (W_I64Store (ma 8));
+      I 16; P (W_I64Load (ma 0));
+      I 16; P (W_I64Load32U (ma 0));         (* 0x44332211 *)
+      I 16; P (W_I64Load32S (ma 4));         (* 0x88776655 -> 0xFFFFFFFF88776655 *)
+      I 16; P (W_I64Load32S (ma 0));         (* positive *)
+      I 16; P (W_I64Load16U (ma 6));         (* 0x8877 *)
+      I 16; P (W_I64Load16S (ma 6));         (* -> 0xFFFFFFFFFFFF8877 *)
+      I 16; P (W_I64Load8U (ma 7));          (* 0x88 *)
+      I 16; P (W_I64Load8S (ma 7));          (* -> 0xFFFFFFFFFFFFFF88 *)
+      I 16; P (W_I64Load8S (ma 0));          (* 0x11 *)
+      I 20; P (W_I32Load (ma 0))]            (* the upper half read as an i32: 0x88776655 *)
+    = [VI32 2289526357; VI64 17; VI64 18446744073709551496; VI64 136; VI64 18446744073709521015; VI64 34935;
+       VI64 1144201745; VI64 18446744071704110677; VI64 1144201745; VI64 9833440827789222417].
+  Proof. vm_compute. reflexivity. Qed.
+  (* narrow stores write only the low bytes of the operand and leave the neighbours alone *)
+  Example narrow_stores_i32 : topm [I 0; I (-1); P (W_I32Store (ma 0)); I 4; I (-1); P (W_I32Store (ma 0));
+      I 0; I 4660 (* 0x1234 *); P (W_I32Store8 (ma 0)); I 4; I 305419896 (* 0x12345678 *); P (W_I32Store16 (ma 0));
+      I 0; P (W_I32Load (ma 0)); I 4; P (W_I32Load (ma 0))]
+    = [VI32 4294923896 (* 0xFFFF5678 *); VI32 4294967092 (* 0xFFFFFF34 *)].
+  Proof. vm_compute. reflexivity. Qed.
+  Example narrow_stores_i64 : topm [I 0; L (-1); P (W_I64Store (ma 0)); I 8; L (-1); P (W_I64Store (ma 0)); I 16; L (-1); P (W_I64Store (ma 0));
+      I 0; L 1311768467463790320 (* 0x123456789ABCDEF0 *); P (W_I64Store8 (ma 0));
+      I 8; L 1311768467463790320; P (W_I64Store16 (ma 0)); I 16; L 1311768467463790320; P (W_I64Store32 (ma 0));
+      I 0; P (W_I64Load (ma 0)); I 8; P (W_I64Load (ma 0)); I 16; P (W_I64Load (ma 0))]
+    = [VI64 18446744072010653424 (* 0xFFFFFFFF9ABCDEF0 *); VI64 18446744073709543152 (* ..DEF0 *); VI64 18446744073709551600 (* ..F0 *)].
+  Proof. vm_compute. reflexivity. Qed.
+
+  (* ---- bounds: one page = 65536 bytes; the LAST byte of the access must be inside *)
+  Example load_last_word : runm [I 65532; P (W_I32Load (ma 0))] = Fall (with_s_m [VI32 0] [] 1).
+  Proof. vm_compute. reflexivity. Qed.
+  Example load_oob_by_one : runm [I 65533; P (W_I32Load (ma 0))] = Stop Trap (with_s_m [VI32 65533] [] 1).
+  Proof. vm_compute. reflexivity. Qed.
+  Example load_last_byte : runm [I 65535; P (W_I32Load8U (ma 0))] = Fall (with_s_m [VI32 0] [] 1).
+  Proof. vm_compute. reflexivity. Qed.
+  Example load_oob_offset : runm [I 65535; P (W_I32Load8U (ma 1))] = Stop Trap (with_s_m [VI32 65535] [] 1).
+  Proof. vm_compute. reflexivity. Qed.
+  (* NO wrap-around: 0xFFFFFFFF + 1 is 2^32, not 0 (a 33-bit effective address) *)
+  Example ea_does_not_wrap : runm [I (-1); P (W_I32Load8U (ma 1))] = Stop Trap (with_s_m [VI32 4294967295] [] 1).
+  Proof. vm_compute. reflexivity. Qed.
+  Example ea_does_not_wrap_max : runm [I (-1); P (W_I32Load8U (ma 4294967295))] = Stop Trap (with_s_m [VI32 4294967295] [] 1).
+  Proof. vm_compute. reflexivity. Qed.
+  Example store_last_dword : runm [I 65528; L 1; P (W_I64Store (ma 0))]
+    = Fall (with_s_m [] [(65528, 1); (65529, 0); (65530, 0); (65531, 0); (65532, 0); (65533, 0); (65534, 0); (65535, 0)] 1).
+  Proof. vm_compute. reflexivity. Qed.
+  (* a store that is partly out of bounds writes NOTHING *)
+  Example store_oob_by_one : runm [I 65529; L 1; P (W_I64Store (ma 0))] = Stop Trap (with_s_m [VI64 1; VI32 65529] [] 1).
+  Proof. vm_compute. reflexivity. Qed.
+  Example store16_oob : runm [I 65535; I 1; P (W_I32Store16 (ma 0))] = Stop Trap (with_s_m [VI32 1; VI32 65535] [] 1).
+  Proof. vm_compute. reflexivity. Qed.
+  (* operand types are checked: an i64 value for i32.store, an i64 address *)
+  Example store_wrong_type : runm [I 0; L 1; P (W_I32Store (ma 0))] = Stop Trap (with_s_m [VI64 1; VI32 0] [] 1).
+  Proof. vm_compute. reflexivity. Qed.
+  Example load_wrong_type : runm [L 0; P (W_I32Load (ma 0))] = Stop Trap (with_s_m [VI64 0] [] 1).
+  Proof. vm_compute. reflexivity. Qed.
+  (* an operator on another memory index (slot <> 0) traps *)
+  Example other_memory : runm [I 0; P (W_I32Load {| wa_align := 0; wa_offset := 0; wa_memory := 1 |})] = Stop Trap (with_s_m [VI32 0] [] 1).
+  Proof. vm_compute. reflexivity. Qed.
+  Example other_memory_size : runm [P (W_MemorySize 1)] = Stop Trap s_m.
+  Proof. vm_compute. reflexivity. Qed.
+
+  (* ---- memory.size / memory.grow: 1 page, max 2.  size = 1; grow 1 -> 1 (old size); size = 2; grow 1 -> -1; size = 2;
+     grow 0 -> 2; the new page is addressable and zero *)
+  Example grow_ok_then_fail : runm [P (W_MemorySize 0); I 1; P (W_MemoryGrow 0); P (W_MemorySize 0); I 1; P (W_MemoryGrow 0);
+                                    P (W_MemorySize 0); I 0; P (W_MemoryGrow 0); I 65536; P (W_I32Load8U (ma 0))]
+    = Fall (with_s_m [VI32 0; VI32 2; VI32 2; VI32 4294967295; VI32 2; VI32 1; VI32 1] [] 2).
+  Proof. vm_compute. reflexivity. Qed.
+  Example grow_too_much : runm [I 2; P (W_MemoryGrow 0); P (W_MemorySize 0)] = Fall (with_s_m [VI32 1; VI32 4294967295] [] 1).
+  Proof. vm_compute. reflexivity. Qed.
+  Example grow_minus_one : runm [I (-1); P (W_MemoryGrow 0)] = Fall (with_s_m [VI32 4294967295] [] 1).
+  Proof. vm_compute. reflexivity. Qed.
+  Example before_grow_oob : runm [I 65536; P (W_I32Load8U (ma 0))] = Stop Trap (with_s_m [VI32 65536] [] 1).
+  Proof. vm_compute. reflexivity. Qed.
+
+  (* ---- signed division: INT_MIN / -1 traps, INT_MIN rem -1 = 0, truncation towards zero, the remainder has the sign of the dividend *)
+  Example div_s_overflow : runm [I (-2147483648); I (-1); P W_I32DivS] = Stop Trap (with_s_m [VI32 4294967295; VI32 2147483648] [] 1).
+  Proof. vm_compute. reflexivity. Qed.
+  Example rem_s_int_min : runm [I (-2147483648); I (-1); P W_I32RemS] = Fall (with_s_m [VI32 0] [] 1).
+  Proof. vm_compute. reflexivity. Qed.
+  Example div_s_zero : runm [I 1; I 0; P W_I32DivS] = Stop Trap (with_s_m [VI32 0; VI32 1] [] 1).
+  Proof. vm_compute. reflexivity. Qed.
+  Example rem_s_zero : runm [I 1; I 0; P W_I32RemS] = Stop Trap (with_s_m [VI32 0; VI32 1] [] 1).
+  Proof. vm_compute. reflexivity. Qed.
+  (* -7/2 = -3, -7 rem 2 = -1, 7/-2 = -3, 7 rem -2 = 1, -7/-2 = 3, -7 rem -2 = -1, INT_MIN/2 = -2^30 *)
+  Example div_rem_s : topm [I (-7); I 2; P W_I32DivS; I (-7); I 2; P W_I32RemS; I 7; I (-2); P W_I32DivS; I 7; I (-2); P W_I32RemS;
+                            I (-7); I (-2); P W_I32DivS; I (-7); I (-2); P W_I32RemS; I (-2147483648); I 2; P W_I32DivS]
+    = [VI32 3221225472; VI32 4294967295; VI32 3; VI32 1; VI32 4294967293; VI32 4294967295; VI32 4294967293].
+  Proof. vm_compute. reflexivity. Qed.
+  Example div_s_overflow64 : runm [L (-9223372036854775808); L (-1); P W_I64DivS]
+    = Stop Trap (with_s_m [VI64 18446744073709551615; VI64 9223372036854775808] [] 1).
+  Proof. vm_compute. reflexivity. Qed.
+  Example rem_s_int_min64 : runm [L (-9223372036854775808); L (-1); P W_I64RemS] = Fall (with_s_m [VI64 0] [] 1).
+  Proof. vm_compute. reflexivity. Qed.
+  Example div_zero64 : (runm [L 1; L 0; P W_I64DivU], runm [L 1; L 0; P W_I64RemU], runm [L 1; L 0; P W_I64RemS], runm [L 1; L 0; P W_I64DivS])
+    = (Stop Trap (with_s_m [VI64 0; VI64 1] [] 1), Stop Trap (with_s_m [VI64 0; VI64 1] [] 1),
+       Stop Trap (with_s_m [VI64 0; VI64 1] [] 1), Stop Trap (with_s_m [VI64 0; VI64 1] [] 1)).
+  Proof. vm_compute. reflexivity. Qed.
+  (* signed: -7/2 = -3, -7 rem 2 = -1, 7/-2 = -3, 7 rem -2 = 1; unsigned: (2^64-7)/2, (2^64-7) mod 2 *)
+  Example div_rem64 : topm [L (-7); L 2; P W_I64DivS; L (-7); L 2; P W_I64RemS; L 7; L (-2); P W_I64DivS; L 7; L (-2); P W_I64RemS;
+                            L (-7); L 2; P W_I64DivU; L (-7); L 2; P W_I64RemU]
+    = [VI64 1; VI64 9223372036854775804; VI64 1; VI64 18446744073709551613; VI64 18446744073709551615; VI64 18446744073709551613].
+  Proof. vm_compute. reflexivity. Qed.
+
+  (* ---- clz / ctz / popcnt on 0, 1, -1, INT_MIN, 2^16 (2^32) *)
+  Example bits32 : topm [I 0; P W_I32Clz; I 1; P W_I32Clz; I (-1); P W_I32Clz; I (-2147483648); P W_I32Clz; I 65536; P W_I32Clz;
+      I 0; P W_I32Ctz; I 1; P W_I32Ctz; I (-2147483648); P W_I32Ctz; I 65536; P W_I32Ctz;
+      I 0; P W_I32Popcnt; I (-1); P W_I32Popcnt; I (-2147483648); P W_I32Popcnt; I 2863311530 (* 0xAAAAAAAA *); P W_I32Popcnt]
+    = [VI32 16; VI32 1; VI32 32; VI32 0;   VI32 16; VI32 31; VI32 0; VI32 32;   VI32 15; VI32 0; VI32 0; VI32 31; VI32 32].
+  Proof. vm_compute. reflexivity. Qed.
+  Example bits64 : topm [L 0; P W_I64Clz; L 1; P W_I64Clz; L (-1); P W_I64Clz; L (-9223372036854775808); P W_I64Clz;
+      L 0; P W_I64Ctz; L 1; P W_I64Ctz; L (-9223372036854775808); P W_I64Ctz; L 4294967296; P W_I64Ctz;
+      L 0; P W_I64Popcnt; L (-1); P W_I64Popcnt; L 4294967296; P W_I64Popcnt]
+    = [VI64 1; VI64 64; VI64 0;   VI64 32; VI64 63; VI64 0; VI64 64;   VI64 0; VI64 0; VI64 63; VI64 64].
+  Proof. vm_compute. reflexivity. Qed.
+  (* ---- rotations: by 1 across the word boundary, by 0 and by the width (identity), count modulo the width *)
+  Example rot32 : topm [I 2147483649 (* 0x80000001 *); I 1; P W_I32Rotl; I 1; I 1; P W_I32Rotr;
+      I 305419896; I 0; P W_I32Rotl; I 305419896; I 32; P W_I32Rotr;
+      I 305419896 (* 0x12345678 *); I 4; P W_I32Rotl (* 0x23456781 *); I 305419896; I 36; P W_I32Rotr (* = rotr 4: 0x81234567 *);
+      I 305419896; I 31; P W_I32Rotl (* = rotr 1 *); I (-1); I 7; P W_I32Rotr]
+    = [VI32 4294967295; VI32 152709948; VI32 2166572391; VI32 591751041; VI32 305419896; VI32 305419896; VI32 2147483648; VI32 3].
+  Proof. vm_compute. reflexivity. Qed.
+  Example rot64 : topm [L (-9223372036854775807) (* 0x8000000000000001 *); L 1; P W_I64Rotl; L 1; L 1; P W_I64Rotr;
+      L 1311768467463790320; L 64; P W_I64Rotl; L 1311768467463790320 (* 0x123456789ABCDEF0 *); L 4; P W_I64Rotl;
+      L 1311768467463790320; L 68; P W_I64Rotr; L 1311768467463790320; L 63; P W_I64Rotl]
+    = [VI64 655884233731895160; VI64 81985529216486895; VI64 2541551405711093505; VI64 1311768467463790320; VI64 9223372036854775808; VI64 3].
+  Proof. vm_compute. reflexivity. Qed.
+  (* ---- shr_s keeps the sign, count modulo the width: -8 >> 1 = -4, -8 >> 33 = -4, -1 >> 31 = -1, INT_MAX >> 30 = 1, INT_MIN >> 31 = -1; shr_u does not *)
+  Example shr32 : topm [I (-8); I 1; P W_I32ShrS; I (-8); I 33; P W_I32ShrS; I (-1); I 31; P W_I32ShrS; I 2147483647; I 30; P W_I32ShrS;
+                        I (-2147483648); I 31; P W_I32ShrS; I (-8); I 1; P W_I32ShrU]
+    = [VI32 2147483644; VI32 4294967295; VI32 1; VI32 4294967295; VI32 4294967292; VI32 4294967292].
+  Proof. vm_compute. reflexivity. Qed.
+  Example shifts64 : topm [L (-8); L 1; P W_I64ShrS; L (-8); L 65; P W_I64ShrS; L (-1); L 63; P W_I64ShrS; L (-8); L 1; P W_I64ShrU;
+                           L 1; L 63; P W_I64Shl; L 1; L 64; P W_I64Shl (* count 64 = 0 *); L (-1); L 63; P W_I64ShrU]
+    = [VI64 1; VI64 1; VI64 9223372036854775808; VI64 9223372036854775804; VI64 18446744073709551615;
+       VI64 18446744073709551612; VI64 18446744073709551612].
+  Proof. vm_compute. reflexivity. Qed.
+
+  (* ---- comparisons, signed vs unsigned, on (-1, 1) and on equal operands *)
+  Example cmp32 : topm [I (-1); I 1; P W_I32LeS; I (-1); I 1; P W_I32LeU; I (-1); I 1; P W_I32GtS; I (-1); I 1; P W_I32GtU;
+                        I (-1); I 1; P W_I32GeS; I (-1); I 1; P W_I32GeU;
+                        I 5; I 5; P W_I32LeS; I 5; I 5; P W_I32LeU; I 5; I 5; P W_I32GtS; I 5; I 5; P W_I32GtU; I 5; I 5; P W_I32GeS; I 5; I 5; P W_I32GeU]
+    = [VI32 1; VI32 1; VI32 0; VI32 0; VI32 1; VI32 1;   VI32 1; VI32 0; VI32 1; VI32 0; VI32 0; VI32 1].
+  Proof. vm_compute. reflexivity. Qed.
+  (* the result of an i64 comparison is an i32 *)
+  Example cmp64 : topm [L (-1); L 1; P W_I64LtS; L (-1); L 1; P W_I64LtU; L (-1); L 1; P W_I64LeS; L (-1); L 1; P W_I64LeU;
+                        L (-1); L 1; P W_I64GtS; L (-1); L 1; P W_I64GtU; L (-1); L 1; P W_I64GeS; L (-1); L 1; P W_I64GeU;
+                        L 5; L 5; P W_I64LtS; L 5; L 5; P W_I64LeS; L 5; L 5; P W_I64GeU; L 5; L 5; P W_I64GtU;
+                        L 5; L 5; P W_I64Eq; L 5; L 5; P W_I64Ne; L 0; P W_I64Eqz; L 4294967296; P W_I64Eqz (* not zero: the upper half counts *);
+                        L (-9223372036854775808); L 9223372036854775807; P W_I64LtS; L (-9223372036854775808); L 9223372036854775807; P W_I64LtU]
+    = [VI32 0; VI32 1;   VI32 0; VI32 1; VI32 0; VI32 1;   VI32 0; VI32 1; VI32 1; VI32 0;   VI32 1; VI32 0; VI32 1; VI32 0; VI32 0; VI32 1; VI32 0; VI32 1].
+  Proof. vm_compute. reflexivity. Qed.
+
+  (* ---- sign extension inside a register: only the low part counts *)
+  Example ext32 : topm [I 128; P W_I32Extend8S; I 127; P W_I32Extend8S; I 4660 (* 0x1234 -> 0x34 *); P W_I32Extend8S; I 33023 (* 0x80FF -> -1 *); P W_I32Extend8S;
+                        I 32768; P W_I32Extend16S; I 32767; P W_I32Extend16S; I 305430528 (* 0x12348000 *); P W_I32Extend16S]
+    = [VI32 4294934528; VI32 32767; VI32 4294934528; VI32 4294967295; VI32 52; VI32 127; VI32 4294967168].
+  Proof. vm_compute. reflexivity. Qed.
+  Example ext64 : topm [I (-2147483648); P W_I64ExtendI32S; I 2147483647; P W_I64ExtendI32S; I (-1); P W_I64ExtendI32S;
+                        L 128; P W_I64Extend8S; L 32768; P W_I64Extend16S; L 2147483648; P W_I64Extend32S; L 4294967295; P W_I64Extend32S;
+                        L 6442450943 (* 0x17FFFFFFF *); P W_I64Extend32S; L 383 (* 0x17F *); P W_I64Extend8S]
+    = [VI64 127; VI64 2147483647; VI64 18446744073709551615; VI64 18446744071562067968; VI64 18446744073709518848;
+       VI64 18446744073709551488; VI64 18446744073709551615; VI64 2147483647; VI64 18446744071562067968].
+  Proof. vm_compute. reflexivity. Qed.
+
+  (* ---- a body with memory through the round trip: memory 0 becomes memory 2 in the output, locals swapped; a loop fills
+     16 bytes with i*3, then sums them as four little-endian words *)
+  Definition fill_sum : list rt :=
+    [ RBlock BT_Empty
+        [ RLoop BT_Empty
+            [ P (W_LocalGet 0); P (W_I32Const 16); P W_I32GeU; RBrIf 1 0;
+              P (W_LocalGet 0); P (W_LocalGet 0); P (W_I32Const 3); P W_I32Mul; P (W_I32Store8 (ma 100));
+              P (W_LocalGet 0); P (W_I32Const 1); P W_I32Add; P (W_LocalSet 0); RNop 0;
+              RBr 0 0; P (W_I32Const 0); P (W_I32Load {| wa_align := 2; wa_offset := 8; wa_memory := 7 |}) ] 0 0 ] 0 0;
+      P (W_I32Const 100); P (W_I32Load (ma 0)); P (W_I32Const 100); P (W_I32Load (ma 4)); P W_I32Add;
+      P (W_I32Const 100); P (W_I32Load (ma 8)); P W_I32Add; P (W_I32Const 100); P (W_I32Load (ma 12)); P W_I32Add;
+      P (W_I32Const 0); P (W_I64Load32U (ma 112)); P W_I32WrapI64; P W_I32Add ].
+  Example fill_sum_ok : forallb memarg_ok (ops_of fill_sum) = true.
+  Proof. vm_compute. reflexivity. Qed.
+  Definition s_f : st := {| stk := []; locs := [(0, VI32 0); (1, VI32 0)]; globs := []; labs := []; mem := []; pages := 1; max_pages := 1 |}.
+  Example fill_sum_in : match run_core idN idN idN no_tys 20 fill_sum s_f with Fall s => (stk s, length (mem s)) | _ => ([], O) end
+    = ([VI32 2575989612], 16%nat).
+  Proof. vm_compute. reflexivity. Qed.
+  Example fill_sum_out :
+    run_core lslot' gslot' mslot' no_tys 20 (map (ren_t cx0 ecx0) (fst (nf_rt_list false fill_sum))) s_f
+    = run_core idN idN idN no_tys 20 fill_sum s_f.
+  Proof. apply ex_equiv, memarg_ok_forallb, fill_sum_ok. Qed.
+  (* the output operators address memory 2 *)
+  Example fill_sum_out_mem : existsb (fun o => match o with W_I32Store8 m => wa_memory m =? 2 | _ => false end)
+      (ops_of (map (ren_t cx0 ecx0) (fst (nf_rt_list false fill_sum)))) = true.
+  Proof. vm_compute. reflexivity. Qed.
+  (* ... so that on the ORIGINAL slot map the output traps at the first store *)
+  Example fill_sum_out_unrenumbered :
+    match run_core lslot' gslot' idN no_tys 20 (map (ren_t cx0 ecx0) (fst (nf_rt_list false fill_sum))) s_f with
+    | Stop Trap s => length (mem s) | _ => 99%nat end = 0%nat.
+  Proof. vm_compute. reflexivity. Qed.
 End Ex.
 
 Print Assumptions core_never_falls.
 Print Assumptions core_sem_renamed.
+Print Assumptions core_sem_renamed_big_offset_refuted.
+Print Assumptions align_roundtrip.
+Print Assumptions nf_op_core_map_idx.
 Print Assumptions core_roundtrip_equiv.
 Print Assumptions core_roundtrip_equiv_tree.
 Print Assumptions core_roundtrip_equiv_tys.
